@@ -9,6 +9,7 @@ import Penguin.Lemmas.MuxBasic
 import Penguin.Lemmas.MuxStep
 import Penguin.Lemmas.MuxBound
 import Penguin.Lemmas.MuxReply
+import Penguin.Lemmas.PairQuiesce
 
 namespace Penguin.C10
 open Penguin Penguin.Mux
@@ -131,5 +132,39 @@ example : lookup (runOps { opts := { rwnd := 2 } } [.deliver (.msg (.frame (.con
 /-! Non-vacuity -/
 example : (processFrame { opts := {} } (.push 7 [1]) false).1.outq = [.frame (.reset 7)] := by decide
 example : lookup ({ opts := {}, flows := [(3, .requested 1)] } : EP).flows 3 = some (.requested 1) := by decide
+
+/-! ## No endless chatter between two conforming endpoints
+
+`Pair.moved p l`: the number of messages handed to a transport (`xmit`) or taken from it and processed
+(`recv`) in the course of running `l` from `p` (actions that are not enabled are skipped).
+`Pair.M`: the measure of `Lemmas/PairQuiesce.lean` (see Props/C04, last section). -/
+
+open Penguin.Pair in
+/-- Without any application action, two conforming endpoints exchange at most `M p` messages: in ANY
+    schedule of internal actions (transmissions, frame processing, notifications, parked hand-overs, open
+    futures returning or retrying; either side, any interleaving, enabled or not) from ANY pair state `p`,
+    the transmissions and frame-processing steps number at most `M p` — each pays one unit of the measure,
+    no internal action ever increases it. A reply (`Acknowledge`, `Reset`) never triggers an endless
+    exchange: a `Reset` is never answered (`never_reset_to_reset`), an `Acknowledge` at most by a `Reset`,
+    a rejected `Connect` is retried at most `max_flow_id_retries` times. -/
+theorem no_endless_chatter (p : PS) (l : List (Side × Pair.Act)) (hi : ∀ sa ∈ l, internal sa.2 = true) :
+    moved p l ≤ M p ∧ moved p l + M (Pair.run p l) ≤ M p :=
+  ⟨by have := moved_measure p l hi; omega, moved_measure p l hi⟩
+
+/-! Non-vacuity: both endpoints request a stream and both draw flow id 7. Each `Connect` is rejected with
+    a `Reset`, each request is retried with a fresh id (8, 9), acknowledged and returned: 16 messages
+    moved, `M = 78` at the start, `0` at the end, where nothing is left to do. -/
+private def ch0 : Pair.PS :=
+  Pair.run (Pair.init {} {} [7, 8, 20] [7, 9, 21]) [(.A, .open 1 [104] 80), (.B, .open 1 [105] 81)]
+private def chs : List (Pair.Side × Pair.Act) :=
+  [(.A, .xmit), (.B, .xmit), (.A, .recv), (.B, .recv), (.A, .xmit), (.B, .xmit), (.A, .recv), (.B, .recv),
+   (.A, .runRetries), (.B, .runRetries), (.A, .xmit), (.B, .xmit), (.A, .recv), (.B, .recv), (.A, .xmit), (.B, .xmit),
+   (.A, .recv), (.B, .recv), (.A, .runDone), (.B, .runDone)]
+example : (∀ sa ∈ chs, Pair.internal sa.2 = true) ∧ Pair.moved ch0 chs = 16 ∧ Pair.M ch0 = 78 ∧
+    Pair.M (Pair.run ch0 chs) = 0 ∧ Pair.ProdSched ch0 chs := by decide
+example : Pair.Quiescent (Pair.run ch0 chs) := (Pair.quiescent_iff _).2 (by decide)
+example : Pair.moved ch0 chs ≤ Pair.M ch0 := (no_endless_chatter ch0 chs (by decide)).1
+/-- The `Reset` that answers the colliding `Connect` is on the wire after the first four steps. -/
+example : (Pair.run ch0 (chs.take 6)).ab = [.frame (.reset 7)] := by decide
 
 end Penguin.C10
